@@ -1,13 +1,19 @@
 /-
 Soundness of the two n-ary rules (`IdentityRule`, `HomothetyRule`) and of `AlgebraicReductionRule.apply`
 as modelled in FuraxModel/Reduce.lean, for ANY semantics of the operator tree that satisfies the laws
-collected in `OpSem` (identity is the identity, a scalar operator multiplies by its value, every operator
-is homogeneous).  The laws are hypotheses (a structure), never axioms; Level-B files discharge them for the
-concrete kernels.
+collected in `OpSem` (identity is the identity, a scalar operator multiplies by its value, every structurally
+well-formed operator is honest and homogeneous).  The laws are hypotheses (a structure), never axioms; Level-B
+files discharge them for the concrete kernels.
+
+The laws `honest` and `homogeneous` are demanded of STRUCTURALLY WELL-FORMED operators only (`StructOK`,
+FuraxProofs/Lemmas/WellFormed.lean: what the Python constructors guarantee), so that the framework is inhabited
+by faithful denotations (FuraxProofs/Sem/ListSem.lean); accordingly the theorems below are about chains of
+structurally well-formed operands (`Sem.ok = StructOK`).
 -/
 import FuraxModel.Reduce
 import FuraxProofs.Lemmas.Scan
 import FuraxProofs.Lemmas.OpEq
+import FuraxProofs.Lemmas.WellFormed
 namespace Furax
 open Op
 
@@ -16,7 +22,8 @@ structure OpSem (V : Type) where
   den : Op → V → V
   mem : Struct → V → Prop
   smul : Rat → V → V
-  honest : ∀ o x, mem (Op.inS o) x → mem (Op.outS o) (den o x)
+  /-- a structurally well-formed operator maps its input space into its output space -/
+  honest : ∀ o x, StructOK o → mem (Op.inS o) x → mem (Op.outS o) (den o x)
   smul_one : ∀ x, smul 1 x = x
   smul_smul : ∀ a b x, smul a (smul b x) = smul (a * b) x
   mem_smul : ∀ s a x, mem s x → mem s (smul a x)
@@ -24,18 +31,23 @@ structure OpSem (V : Type) where
   identity_law : ∀ o, o.isIdentity = true → ∀ x, mem (Op.inS o) x → den o x = x
   /-- `HomothetyOperator.mv` multiplies every leaf by `value` -/
   homothety_law : ∀ o, o.isHomothety = true → ∀ x, mem (Op.inS o) x → den o x = smul (homValue o) x
-  /-- every operator commutes with scalar multiplication (C04: linearity) -/
-  homogeneous : ∀ o a x, mem (Op.inS o) x → den o (smul a x) = smul a (den o x)
+  /-- every structurally well-formed operator commutes with scalar multiplication (C04: linearity) -/
+  homogeneous : ∀ o a x, StructOK o → mem (Op.inS o) x → den o (smul a x) = smul a (den o x)
 
 namespace OpSem
 variable {V : Type} (L : OpSem V)
 
-def toSem : Sem Op V Struct := ⟨L.den, Op.inS, Op.outS, L.mem, L.honest⟩
+def toSem : Sem Op V Struct := ⟨L.den, Op.inS, Op.outS, L.mem, StructOK, L.honest⟩
 
 @[simp] theorem toSem_inS (o : Op) : L.toSem.inS o = Op.inS o := rfl
 @[simp] theorem toSem_outS (o : Op) : L.toSem.outS o = Op.outS o := rfl
 @[simp] theorem toSem_den (o : Op) : L.toSem.den o = L.den o := rfl
 @[simp] theorem toSem_mem (s : Struct) : L.toSem.mem s = L.mem s := rfl
+@[simp] theorem toSem_ok (o : Op) : L.toSem.ok o = StructOK o := rfl
+
+theorem identityRule_mem (ops : List Op) (o : Op) (h : o ∈ identityRule ops) : o ∈ ops := by
+  simp only [identityRule, List.mem_filter] at h
+  exact h.1
 
 /-- identity and scalar operators are square by construction (`@square`: `out_structure = in_structure`) -/
 theorem identity_square (o : Op) (h : o.isIdentity = true) : Op.inS o = Op.outS o := by
@@ -50,13 +62,14 @@ theorem homothety_square (o : Op) (h : o.isHomothety = true) : Op.inS o = Op.out
 
 /-- `IdentityRule.apply` preserves typing and denotation -/
 theorem identityRule_sound : L.toSem.ListSound identityRule := by
-  intro ops
-  induction ops with
-  | nil => intro s t h; exact ⟨h, fun _ _ => rfl⟩
+  intro ops s t hok h
+  refine ⟨fun o ho => hok o (identityRule_mem ops o ho), ?_⟩
+  induction ops generalizing t with
+  | nil => exact ⟨h, fun _ _ => rfl⟩
   | cons o os ih =>
-    intro s t h
     obtain ⟨h1, h2⟩ := h
-    obtain ⟨ihw, iha⟩ := ih s _ h2
+    have hok' : ∀ o' ∈ os, L.toSem.ok o' := fun o' ho' => hok o' (List.mem_cons_of_mem _ ho')
+    obtain ⟨ihw, iha⟩ := ih _ hok' h2
     by_cases hid : o.isIdentity = true
     · have hrule : identityRule (o :: os) = identityRule os := by
         simp [identityRule, List.filter, hid]
@@ -67,7 +80,7 @@ theorem identityRule_sound : L.toSem.ListSound identityRule := by
       constructor
       · rw [← h1, ← hsq]; exact ihw
       · intro x hx
-        have hm : L.mem (Op.inS o) (L.toSem.app os x) := L.toSem.WT_mem _ _ _ h2 x hx
+        have hm : L.mem (Op.inS o) (L.toSem.app os x) := L.toSem.WT_mem _ _ _ hok' h2 x hx
         simp only [Sem.app, toSem_den]
         rw [hden _ hm]
         exact iha x hx
@@ -99,25 +112,31 @@ theorem valProd_eq_foldl (ops : List Op) :
     · simp [List.filter, h, valProd, ih]
     · simp [List.filter, h, valProd, ih]
 
-/-- a chain of homogeneous operators is homogeneous -/
-theorem app_homogeneous (ops : List Op) (s t : Struct) (h : L.toSem.WT ops s t) (a : Rat) (x : V)
+/-- a chain of (structurally well-formed, hence) homogeneous operators is homogeneous -/
+theorem app_homogeneous (ops : List Op) (s t : Struct) (hok : ∀ o ∈ ops, StructOK o)
+    (h : L.toSem.WT ops s t) (a : Rat) (x : V)
     (hx : L.mem s x) : L.toSem.app ops (L.smul a x) = L.smul a (L.toSem.app ops x) := by
   induction ops generalizing t with
   | nil => rfl
   | cons o os ih =>
     obtain ⟨_, h2⟩ := h
+    have hok' : ∀ o' ∈ os, StructOK o' := fun o' ho' => hok o' (List.mem_cons_of_mem _ ho')
     simp only [Sem.app, toSem_den]
-    rw [ih _ h2, L.homogeneous o a _ (L.toSem.WT_mem _ _ _ h2 x hx)]
+    rw [ih _ hok' h2, L.homogeneous o a _ (hok o List.mem_cons_self) (L.toSem.WT_mem _ _ _ hok' h2 x hx)]
+
+theorem strip_mem (ops : List Op) (o : Op) (h : o ∈ strip ops) : o ∈ ops :=
+  (List.mem_filter.mp h).1
 
 /-- stripping the scalar operators: typing is kept and the scalars factor out -/
-theorem strip_sound (ops : List Op) (s t : Struct) (h : L.toSem.WT ops s t) :
+theorem strip_sound (ops : List Op) (s t : Struct) (hok : ∀ o ∈ ops, StructOK o) (h : L.toSem.WT ops s t) :
     L.toSem.WT (strip ops) s t ∧
     ∀ x, L.mem s x → L.toSem.app ops x = L.smul (valProd ops) (L.toSem.app (strip ops) x) := by
   induction ops generalizing t with
   | nil => exact ⟨h, fun x _ => by simp [Sem.app, valProd, strip, L.smul_one]⟩
   | cons o os ih =>
     obtain ⟨h1, h2⟩ := h
-    obtain ⟨ihw, iha⟩ := ih _ h2
+    have hok' : ∀ o' ∈ os, StructOK o' := fun o' ho' => hok o' (List.mem_cons_of_mem _ ho')
+    obtain ⟨ihw, iha⟩ := ih _ hok' h2
     by_cases hh : o.isHomothety = true
     · have hsq := homothety_square o hh
       have hden := L.homothety_law o hh
@@ -127,17 +146,17 @@ theorem strip_sound (ops : List Op) (s t : Struct) (h : L.toSem.WT ops s t) :
       constructor
       · rw [← h1, ← hsq]; exact ihw
       · intro x hx
-        have hm := L.toSem.WT_mem _ _ _ h2 x hx
+        have hm := L.toSem.WT_mem _ _ _ hok' h2 x hx
         simp only [Sem.app, toSem_den, valProd, hh, if_true]
         rw [hden _ hm, iha x hx, L.smul_smul]
     · have hs : strip (o :: os) = o :: strip os := by simp [strip, List.filter, hh]
       rw [hs]
       refine ⟨⟨h1, ihw⟩, fun x hx => ?_⟩
-      have hm := L.toSem.WT_mem _ _ _ ihw x hx
+      have hm := L.toSem.WT_mem _ _ _ (fun o' ho' => hok' o' (strip_mem os o' ho')) ihw x hx
       simp only [Sem.app, toSem_den, valProd, hh]
       rw [iha x hx]
       simp only [Bool.false_eq_true, if_false]
-      exact L.homogeneous o _ _ hm
+      exact L.homogeneous o _ _ (hok o List.mem_cons_self) hm
 
 theorem WT_head (o : Op) (os : List Op) (s t : Struct) (h : L.toSem.WT (o :: os) s t) :
     Op.outS o = t := h.1
@@ -161,9 +180,34 @@ theorem mkHomothety_law (v : Rat) (s : Struct) :
     Op.outS (mkHomothety v s) = s ∧ homValue (mkHomothety v s) = v := by
   simp [mkHomothety, isHomothety, isLeafCls, Op.inS, Op.outS, homValue, Tensor.scalar]
 
+theorem homothetyRule_mem (ops : List Op) (o : Op) (h : o ∈ homothetyRule ops) :
+    o ∈ ops ∨ ∃ v s, o = mkHomothety v s := by
+  unfold homothetyRule at h
+  split at h
+  · simp only [] at h
+    split at h
+    · exact .inl h
+    · split at h
+      · exact .inl h
+      · split at h
+        · rw [List.mem_cons] at h
+          rcases h with h | h
+          · exact .inr ⟨_, _, h⟩
+          · exact .inl (List.mem_filter.mp h).1
+        · rw [List.mem_append] at h
+          rcases h with h | h
+          · exact .inl (List.mem_filter.mp h).1
+          · rw [List.mem_singleton] at h
+            exact .inr ⟨_, _, h⟩
+  · exact .inl h
+
 /-- `HomothetyRule.apply` preserves typing and denotation (any number of scalar factors, either side) -/
 theorem homothetyRule_sound : L.toSem.ListSound homothetyRule := by
-  intro ops s t h
+  intro ops s t hok h
+  refine ⟨fun o ho => ?_, ?_⟩
+  · rcases homothetyRule_mem ops o ho with h1 | ⟨v, s', rfl⟩
+    · exact hok o h1
+    · exact StructOK_mkHomothety v s'
   unfold homothetyRule
   split
   · rename_i first o2 rest last hlast
@@ -172,7 +216,9 @@ theorem homothetyRule_sound : L.toSem.ListSound homothetyRule := by
     · exact ⟨h, fun _ _ => rfl⟩
     · split
       · exact ⟨h, fun _ _ => rfl⟩
-      · obtain ⟨hsw, hsa⟩ := L.strip_sound _ s t h
+      · obtain ⟨hsw, hsa⟩ := L.strip_sound _ s t hok h
+        have hoks : ∀ o ∈ strip (first :: o2 :: rest), StructOK o :=
+          fun o ho => hok o (strip_mem _ o ho)
         rw [valProd_eq_foldl]
         have hfirst : Op.outS first = t := L.WT_head _ _ _ _ h
         have hlst : Op.inS last = s := L.WT_last _ _ _ _ h hlast
@@ -182,7 +228,7 @@ theorem homothetyRule_sound : L.toSem.ListSound homothetyRule := by
           have hden := L.homothety_law _ hH
           refine ⟨⟨by rw [toSem_outS, hO, hfirst], by rw [toSem_inS, hI, hfirst]; exact hsw⟩, ?_⟩
           intro x hx
-          have hm := L.toSem.WT_mem _ _ _ hsw x hx
+          have hm := L.toSem.WT_mem _ _ _ hoks hsw x hx
           rw [hsa x hx]
           show L.den _ (L.toSem.app (strip _) x) = _
           rw [hden _ (by rw [hI, hfirst]; exact hm), hV]
@@ -199,21 +245,21 @@ theorem homothetyRule_sound : L.toSem.ListSound homothetyRule := by
             rw [hsa x hx, L.toSem.app_append]
             show L.toSem.app (strip _) (L.den _ x) = _
             rw [hden _ (by rw [hI, hlst]; exact hx), hV]
-            exact L.app_homogeneous _ _ _ hsw _ _ hx
+            exact L.app_homogeneous _ _ _ hoks hsw _ _ hx
   · exact ⟨h, fun _ _ => rfl⟩
 
 /-- filtering identities out of a sound rule's output keeps it sound -/
 theorem dropIdentities_sound (ru : BRule) (h : L.toSem.RuleSound ru) :
     L.toSem.RuleSound (dropIdentities ru) := by
-  intro l r new hf hlr
+  intro l r new hl hr hf hlr
   simp only [dropIdentities] at hf
   split at hf
   · rename_i new0 hf0
     simp only [Except.ok.injEq, Option.some.injEq] at hf
     subst hf
-    obtain ⟨hw, ha⟩ := h l r new0 hf0 hlr
-    obtain ⟨hw', ha'⟩ := L.identityRule_sound _ _ _ hw
-    exact ⟨hw', fun x hx => by rw [ha' x hx, ha x hx]⟩
+    obtain ⟨hk, hw, ha⟩ := h l r new0 hl hr hf0 hlr
+    obtain ⟨hk', hw', ha'⟩ := L.identityRule_sound _ _ _ hk hw
+    exact ⟨hk', hw', fun x hx => by rw [ha' x hx, ha x hx]⟩
   · rename_i hne
     exact absurd hf (hne new)
 
@@ -237,25 +283,28 @@ theorem inSLast_eq_last (ops : List Op) (last : Op) (hl : ops.getLast? = some la
       simp only [inSLast]
       exact ih hl
 
-/-- **`AlgebraicReductionRule.apply` is sound** for every chain, provided every binary rule of the
-registry is (`RuleSound`); the empty result becomes an identity on the chain's input structure. -/
+/-- **`AlgebraicReductionRule.apply` is sound** for every chain of structurally well-formed operands, provided
+every binary rule of the registry is (`RuleSound`); the empty result becomes an identity on the chain's input
+structure. -/
 theorem algebraicReduction_sound (red : Op → Except PyErr Op)
     (hr : ∀ ru ∈ binaryRules red, L.toSem.RuleSound ru)
-    (ops res : List Op) (s t : Struct) (hwt : L.toSem.WT ops s t)
+    (ops res : List Op) (s t : Struct) (hok : ∀ o ∈ ops, StructOK o) (hwt : L.toSem.WT ops s t)
     (hres : algebraicReduction red ops = .ok res) :
-    L.toSem.WT res s t ∧ ∀ x, L.mem s x → L.toSem.app res x = L.toSem.app ops x := by
+    (∀ o ∈ res, StructOK o) ∧ L.toSem.WT res s t ∧
+    ∀ x, L.mem s x → L.toSem.app res x = L.toSem.app ops x := by
   unfold algebraicReduction at hres
   split at hres
-  · simp only [Except.ok.injEq] at hres; subst hres; exact ⟨hwt, fun _ _ => rfl⟩
+  · simp only [Except.ok.injEq] at hres; subst hres; exact ⟨hok, hwt, fun _ _ => rfl⟩
   · rename_i hlen
     simp only [] at hres
-    obtain ⟨w1, a1⟩ := L.identityRule_sound _ _ _ hwt
-    obtain ⟨w2, a2⟩ := L.homothetyRule_sound _ _ _ w1
+    obtain ⟨k1, w1, a1⟩ := L.identityRule_sound _ _ _ hok hwt
+    obtain ⟨k2, w2, a2⟩ := L.homothetyRule_sound _ _ _ k1 w1
     split at hres
     · simp at hres
     · simp at hres
     · rename_i r hscan
-      obtain ⟨w3, a3⟩ := scan_sound L.toSem (reductionCfg red) (L.cfg_rules_sound red hr) L.homothetyRule_sound _ _ _ _ _ _ w2 hscan
+      obtain ⟨k3, w3, a3⟩ := scan_sound L.toSem (reductionCfg red) (L.cfg_rules_sound red hr)
+        L.homothetyRule_sound _ _ _ _ _ _ k2 w2 hscan
       have hall : ∀ x, L.mem s x → L.toSem.app r x = L.toSem.app ops x :=
         fun x hx => by rw [a3 x hx, a2 x hx, a1 x hx]
       split at hres
@@ -275,12 +324,16 @@ theorem algebraicReduction_sound (red : Op → Except PyErr Op)
         have hidl := L.identity_law (mkIdentity (inSLast ops)) (by simp [mkIdentity, isIdentity, isLeafCls])
         have hI : Op.inS (mkIdentity (inSLast ops)) = s := by simp [mkIdentity, Op.inS, hin]
         have hO : Op.outS (mkIdentity (inSLast ops)) = s := by simp [mkIdentity, Op.outS, hin]
-        refine ⟨⟨by rw [toSem_outS, hO, w3], by rw [toSem_inS, hI]; rfl⟩, fun x hx => ?_⟩
-        simp only [Sem.app, toSem_den]
-        rw [hidl x (by rw [hI]; exact hx)]
-        exact hall x hx
+        refine ⟨?_, ⟨by rw [toSem_outS, hO, w3], by rw [toSem_inS, hI]; rfl⟩, fun x hx => ?_⟩
+        · intro o ho
+          rw [List.mem_singleton] at ho
+          subst ho
+          exact StructOK_mkIdentity _
+        · simp only [Sem.app, toSem_den]
+          rw [hidl x (by rw [hI]; exact hx)]
+          exact hall x hx
       · simp only [Except.ok.injEq] at hres; subst hres
-        exact ⟨w3, hall⟩
+        exact ⟨k3, w3, hall⟩
 
 end OpSem
 
